@@ -11,6 +11,32 @@ The device is driven only through write()/read()/start()/stop(); the chooser dec
  out (they just loop), 5 an idle task that advances the virtual clock.  Nothing else ever runs, so a
  history of ops is a deterministic sequential history — the one the Lean model (`Dummy.lean`) executes.
 (This module is also the library of props/C16.py.)
+
+Generator kinds of a custom channel (`chan = type.vdim.mlen.gen.en.div.namehex`): 0..9 = dummy.py's ChannelFunc<k>;
+10 = a user-defined vector function (ChannelFunc1's counter in every component); 11 = a user-defined function of the
+CALL INDEX that `DeviceChannel.data_get` hands to `IDeviceChannelFunc.get(cntr)` (`get(cntr) -> (cntr,) * vdim`);
+12 = its sparse variant (`None` unless `cntr % 3 == 0`); n = no function.  Kinds 11 / 12 make `DeviceChannel._cntr`
+observable: it must advance on every call (also when the function returned None) and restart with the generators
+(finding F19).  The state dump `d` also shows the call counters (compared with the model, not judged by the oracle).
+
+What the quantifier of the property covers here, and what it does not (exclusions accepted by the owner):
+ * "padding, noise, CRC-damaged requests" are writes the NxScope receiver does not accept (no start byte, bad header,
+   inconsistent length, bad checksum).  A CRC-VALID frame that is not a request — an ACK or STREAM id, a common-info
+   request WITH a payload — is outside that class: `ParseRecv.recv_handle` asserts on it and the AssertionError ends
+   DummyDev's receive thread.  The model reproduces this (`Thr.dead`, generator branch `*-bad`); the oracle does not
+   judge such histories (the judge marks the instance `tainted`).
+ * only the FIRST frame of one write() is handled (`recv_handle` looks for one start byte per call); a second request
+   in the same write is dropped.  The nxslib client never batches requests, and the histories here carry one request
+   per write (with leading / trailing padding).
+ * the random generators (ChannelFunc0/3/4) draw from the process-global `random`: one device's streaming shifts the
+   values another device's random channels produce under a seed.  Values of random channels are compared by
+   STRUCTURE only (dimension, position), so C16's independence says nothing about their values; the sine generator
+   (ChannelFunc9) is compared by value in oracle runs only.
+ * what survives a restart: `stop()` lets the stream thread finish its iteration (one more batch if the stream is
+   started), lets the receive thread take at most one more request, then drops ONE queued item from each queue — the
+   rest of the queued writes and of the unread frames (stale responses / stream frames) survive into the next
+   `start()`, as do enable flags, dividers and the stream-started flag; `start()` resets generators and call counters.
+ * a stream batch larger than one frame payload ends the stream thread (known finding F17, key `batch-too-large`).
 """
 import struct
 
@@ -21,7 +47,9 @@ import streamglue as sg
 from ref import ref_frame, ref_crc16_xmodem
 
 BOUNDARY = ("get", "event-wait", "join", "ctl")
-DET_GENS = (1, 2, 5, 6, 7, 8, 10)
+DET_GENS = (1, 2, 5, 6, 7, 8, 10, 11, 12)
+IDX_GENS = (11, 12)            # user-defined functions of the call index (see module docstring)
+IDX_MAX = 1 << 24              # call indices stay below this in every history (exact in float32)
 RND_GENS = (0, 3, 4, 9)
 # in oracle runs the sine generator (9) is judged by value against math.sin (it is deterministic and must restart
 # with the others); in correspondence runs it stays masked because the Lean model does not compute sines
@@ -82,12 +110,27 @@ class Ctl:
         self.pos = 0
 
     def count(self, sim, task):
-        tr = sim.trace
-        while self.pos < len(tr):
-            n = tr[self.pos][0]
-            self.pos += 1
-            self.counts[n] = self.counts.get(n, 0) + 1
-        return self.counts.get(task.name, 0)
+        """how many times the task was handed the baton (see CountingSim)"""
+        return getattr(task, "nsched", 0)
+
+
+class _NoTrace(list):
+    """`Sim.trace` is capped at 100 000 entries; a batch of thousands of rounds makes more switches than that, so the
+    scheduling counts are kept per task instead (CountingSim._pick) and the trace is not recorded"""
+
+    def append(self, x):
+        pass
+
+
+class CountingSim(vsim.Sim):
+    def __init__(self, *a, **kw):
+        super().__init__(*a, **kw)
+        self.trace = _NoTrace()
+
+    def _pick(self, cands):
+        t = super()._pick(cands)
+        t.nsched = getattr(t, "nsched", 0) + 1
+        return t
 
 
 def timed_out(sim, t):
@@ -138,10 +181,37 @@ def vec_func(vdim):
     return VecFunc()
 
 
+def idx_func(vdim, sparse):
+    """a user-defined channel function that USES the call index `DeviceChannel.data_get` passes: the value is the index in
+    every component; the sparse variant returns None unless the index is a multiple of 3"""
+    from nxslib.dev import DDeviceChannelFuncData, IDeviceChannelFunc
+
+    class IdxFunc(IDeviceChannelFunc):
+        def reset(self):
+            pass
+
+        def get(self, cntr):
+            if sparse and cntr % 3 != 0:
+                return None
+            return DDeviceChannelFuncData(data=(cntr,) * vdim)
+    return IdxFunc()
+
+
+def make_func(dm, c):
+    g = c["gen"]
+    if g is None:
+        return None
+    if g == 10:
+        return vec_func(c["vdim"])
+    if g in IDX_GENS:
+        return idx_func(c["vdim"], g == 12)
+    return getattr(dm, f"ChannelFunc{g}")()
+
+
 def run_history(defs, ops, max_idle=200000):
     """returns (tokens, info).  tokens: one per op, in the format of the Lean driver."""
     ctl = Ctl()
-    sim = vsim.Sim(chooser=make_chooser(ctl), preempt=True, spin_limit=50_000_000)
+    sim = CountingSim(chooser=make_chooser(ctl), preempt=True, spin_limit=50_000_000)
     info = {"errors": []}
 
     def scenario():
@@ -173,7 +243,7 @@ def run_history(defs, ops, max_idle=200000):
                 else:
                     chans = []
                     for i, c in enumerate(d["chans"]):
-                        fn = None if c["gen"] is None else (vec_func(c["vdim"]) if c["gen"] == 10 else getattr(dm, f"ChannelFunc{c['gen']}")())
+                        fn = make_func(dm, c)
                         chans.append(DeviceChannel(i, c["type"], c["vdim"], c["name"].decode("utf-8"), en=bool(c["en"]),
                                                    div=c["div"], mlen=c["mlen"], func=fn))
                 lists.append(chans)
@@ -271,7 +341,8 @@ def run_history(defs, ops, max_idle=200000):
                 dd = dev._dummydev
                 en = "".join("1" if x else "0" for x in dd.channels_en)
                 dv = ",".join(str(x) for x in dd.channels_div)
-                out.append(f"{en}/{dv}/{int(dev._stream_started.flag)}/{dev._qwrite.qsize()}/{dev._qread.qsize()}")
+                calls = ",".join(str(getattr(ch, "_cntr", "?")) for ch in dd._channels)
+                out.append(f"{en}/{dv}/{int(dev._stream_started.flag)}/{dev._qwrite.qsize()}/{dev._qread.qsize()}/{calls}")
             else:
                 raise ValueError(op)
 
@@ -351,61 +422,78 @@ GOOD_COMBOS = [  # (type, vdim, mlen, gen) combinations a conforming configurati
     (7, 1, 0, 2), (4, 1, 0, 1), (6, 1, 0, 1), (9, 1, 0, 2), (8, 1, 0, 1), (5, 3, 1, 7), (7, 3, 1, 7), (9, 3, 1, 7),
     (13, 1, 0, 2), (15, 1, 0, 2), (17, 1, 0, 1), (12, 1, 0, 1), (14, 1, 0, 1), (16, 1, 0, 1), (13, 3, 0, 5), (15, 3, 0, 5),
     (1, 0, 0, 8), (11, 3, 0, 9), (11, 1, 0, 0), (0x8a, 1, 0, 1), (0x4b, 1, 0, 2), (10, 1, 0, None), (1, 0, 0, None),
-    (3, 3, 2, 7), (11, 8, 0, 10), (5, 4, 0, 10), (10, 2, 1, 10) if False else (10, 2, 0, 10),
+    (3, 3, 2, 7), (11, 8, 0, 10), (5, 4, 0, 10), (10, 2, 0, 10),
+    # user-defined functions of the call index (11) and its sparse variant (12): wide types only
+    (7, 1, 0, 11), (10, 1, 0, 12), (11, 2, 0, 11), (6, 1, 0, 12), (9, 3, 0, 12), (10, 2, 0, 11), (7, 1, 0, 12), (17, 1, 0, 11),
+    (8, 1, 0, 12),
 ]
 ODD_COMBOS = [  # configurations whose stream step raises inside the device (modelled, not judged by the oracle)
     (2, 1, 0, 1), (3, 1, 0, 2), (5, 3, 0, 5), (10, 2, 0, 1), (18, 8, 0, 1), (20, 1, 0, 1), (0, 1, 0, 1), (1, 3, 0, 8),
-    (3, 3, 0, 7), (10, 1, 4, 7), (10, 1, 2, 1),
+    (3, 3, 0, 7), (10, 1, 4, 7), (10, 1, 2, 1), (18, 4, 0, 11), (1, 0, 0, 12),
 ]
+SMALL_COMBOS = [c for c in GOOD_COMBOS if c[1] <= 3 and c[3] != 6]     # for devices with many channels
 NAMES = [b"", b"a", b"ch", "é".encode(), "ñandú".encode(), b"x" * 40, b"volt_1"]
+RXPS = [0, 0, 4, 16, 3, 8, 1, 2, 5, 7, 17, 31, 64, 100, 255]
+SNUMS = [1, 2, 3, 1, 2, 3, 4, 7, 16, 50, 99]
+NCHANS = [1, 2, 3, 4, 6, 6, 11, 12, 13, 17, 40, 100, 200, 254, 255]
 
 
-def gen_custom(rng, odd=False, nmax=6):
-    n = rng.choice([1, 2, 3, 4, nmax])
+def gen_custom(rng, odd=False, nmax=6, big=True):
+    """a custom device: 1..255 channels (mostly few), rx padding 0..255, batch sizes 1..99"""
+    n = rng.choice(NCHANS) if big and rng.random() < 0.3 else rng.choice([1, 2, 3, 4, nmax])
+    many = n > 12
     chans = []
     for i in range(n):
-        ty, vdim, mlen, g = rng.choice(ODD_COMBOS if odd and rng.random() < 0.4 else GOOD_COMBOS)
-        chans.append(dict(type=ty, vdim=vdim, mlen=mlen, gen=g, en=int(rng.random() < 0.25), div=rng.choice([0, 0, 0, 7, 255]),
-                          name=rng.choice(NAMES)))
-    return dict(kind="C", flags=rng.choice([3, 3, 0, 1, 2, 0x83]), rxp=rng.choice([0, 0, 4, 16, 3]), snum=rng.choice([1, 2, 3]),
-                chans=chans)
+        ty, vdim, mlen, g = rng.choice(ODD_COMBOS if odd and rng.random() < 0.4 else (SMALL_COMBOS if many else GOOD_COMBOS))
+        chans.append(dict(type=ty, vdim=vdim, mlen=mlen, gen=g, en=int(rng.random() < (0.05 if many else 0.25)),
+                          div=rng.choice([0, 0, 0, 7, 255]), name=rng.choice(NAMES[:5] if many else NAMES)))
+    snum = rng.choice([1, 2, 3, 4] if many else SNUMS)
+    return dict(kind="C", flags=rng.choice([3, 3, 0, 1, 2, 0x83]), rxp=rng.choice(RXPS), snum=snum, chans=chans)
 
 
 def gen_default(rng):
-    return dict(kind="D", flags=rng.choice([3, 3, 3, 0, 1, 2]), rxp=rng.choice([16, 0, 8]), snum=rng.choice([1, 2, 3]),
-                chans=parse_defs("D,3,0,1")[0]["chans"])
+    return dict(kind="D", flags=rng.choice([3, 3, 3, 0, 1, 2]), rxp=rng.choice([16, 0, 8, 16, 5, 1, 33, 255]),
+                snum=rng.choice([1, 2, 3, 1, 2, 3, 4, 9, 25, 99]), chans=parse_defs("D,3,0,1")[0]["chans"])
+
+
+def en_byte(rng):
+    """the value byte of an enable request: any non-zero byte is 'enabled' (a C bool on the wire)"""
+    return rng.choice([0, 1, 1, 1, 0, 1, 2, 255, 128, rng.randrange(256)])
 
 
 def gen_request(rng, n, kinds=None):
-    """(kind, bytes) — a well-formed request for a device with n channels, in single / all / bulk form"""
+    """(kind, bytes) — a well-formed request for a device with n channels, in single / all / bulk form.  The channel byte
+    of an ALL / BULK request is ignored by a conforming device: it is varied (0, an existing id, n, 255)"""
     k = rng.choice(kinds or ["cmninfo", "chinfo", "chinfo", "en1", "enall", "enbulk", "div1", "divall", "divbulk", "start", "start",
                              "stop"])
+    anych = rng.choice([0, 0, 0, 1, max(0, n - 1), n % 256, 255, rng.randrange(256)])
     if k == "cmninfo":
         return k, req(2, [])
     if k == "chinfo":
-        return k, req(3, [rng.randrange(n)])
+        return k, req(3, [rng.choice([0, n - 1, rng.randrange(n)])])
     if k == "en1":
-        return k, req(6, [0, rng.randrange(n), rng.choice([0, 1, 1, 1])])
+        return k, req(6, [0, rng.choice([0, n - 1, rng.randrange(n)]), en_byte(rng)])
     if k == "enall":
-        return k, req(6, [2, 0, rng.choice([0, 1, 1])])
+        return k, req(6, [2, anych, en_byte(rng)])
     if k == "enbulk":
-        return k, req(6, [1, 0] + [int(rng.random() < 0.5) for _ in range(n)])
+        few = n > 12
+        return k, req(6, [1, anych] + [(en_byte(rng) if rng.random() < (0.04 if few else 0.5) else 0) for _ in range(n)])
     if k == "div1":
-        return k, req(7, [0, rng.randrange(n), rng.choice([0, 1, 127, 128, 200, 255, rng.randrange(256)])])
+        return k, req(7, [0, rng.choice([0, n - 1, rng.randrange(n)]), rng.choice([0, 1, 127, 128, 200, 255, rng.randrange(256)])])
     if k == "divall":
-        return k, req(7, [2, 0, rng.choice([0, 3, 128, 255])])
+        return k, req(7, [2, anych, rng.choice([0, 3, 128, 255, rng.randrange(256)])])
     if k == "divbulk":
-        return k, req(7, [1, 0] + [rng.choice([0, 1, 200, rng.randrange(256)]) for _ in range(n)])
+        return k, req(7, [1, anych] + [rng.choice([0, 1, 200, rng.randrange(256)]) for _ in range(n)])
     if k == "start":
-        return k, req(5, [1])
+        return k, req(5, [rng.choice([1, 1, 1, 1, 2, 255])])
     return "stop", req(5, [0])
 
 
 def gen_junk(rng, n):
     """(kind, bytes) — something a conforming device must ignore"""
-    k = rng.choice(["pad", "noise", "crc", "crc", "trunc", "nosof", "empty"])
+    k = rng.choice(["pad", "noise", "crc", "crc", "hdr", "trunc", "nosof", "empty"])
     if k == "pad":
-        return k, bytes(rng.randrange(1, 40))
+        return k, bytes(rng.choice([rng.randrange(1, 40), rng.randrange(1, 40), 64, 255, 300]))
     if k == "empty":
         return k, b""
     if k == "noise":
@@ -424,6 +512,15 @@ def gen_junk(rng, n):
                 b[j] ^= 1 << rng.randrange(8)
             if bytes(b) != fr and not decodable(bytes(b)):
                 return k, bytes(b)
+    if k == "hdr":
+        while True:
+            b = bytearray(fr)
+            i = rng.randrange(0, 3)            # start byte or one of the two length bytes
+            b[i] ^= 1 << rng.randrange(8)
+            if rng.random() < 0.3:
+                b[rng.randrange(0, len(b))] ^= 1 << rng.randrange(8)
+            if bytes(b) != fr and not decodable(bytes(b)):
+                return k, bytes(b)
     if k == "trunc":
         return k, fr[:rng.randrange(1, len(fr))]
     b = bytes(x for x in fr if x != 0x55) or b"\x00"
@@ -440,13 +537,13 @@ def gen_bad_request(rng, n):
     """well-framed requests with contents outside the protocol (the model covers them; the oracle does not judge them)"""
     k = rng.choice(["chinfo-range", "set-short", "set-flags", "single-range", "bulk-short", "wrong-id", "len"])
     if k == "chinfo-range":
-        return k, req(3, [rng.choice([n, n + 1, 255])])
+        return k, req(3, [rng.choice([n, n + 1, 255]) % 256])
     if k == "set-short":
         return k, req(rng.choice([6, 7]), [rng.choice([0, 1, 2])])
     if k == "set-flags":
         return k, req(rng.choice([6, 7]), [3, 0, 1])
     if k == "single-range":
-        return k, req(rng.choice([6, 7]), [0, n + rng.randrange(3), 1])
+        return k, req(rng.choice([6, 7]), [0, (n + rng.randrange(3)) % 256, 1])
     if k == "bulk-short":
         return k, req(rng.choice([6, 7]), [1, 0] + [1] * max(0, n - 1))
     if k == "wrong-id":
@@ -495,6 +592,63 @@ def gen_history(rng, d, k=0, length=None, bad=0.0, junk=0.25, cycles=True):
     return ops
 
 
+# ---------------------------------------------------------------------------------------------------------
+# targeted histories: the wrap-arounds of every default generator, sparse generators, restarts
+# ---------------------------------------------------------------------------------------------------------
+START, STOP = req(5, [1]), req(5, [0])
+
+
+def en_bulk(n, on):
+    return req(6, [1, 0] + [int(i in on) for i in range(n)])
+
+
+def stream_ops(k, first, rounds=1, reads=1):
+    """enable request `first`, start request, then `rounds` x (stream step, `reads` reads)"""
+    ops = [f"{k}w{first.hex()}", f"{k}R", f"{k}r", f"{k}w{START.hex()}", f"{k}R", f"{k}r"]
+    ops += ([f"{k}S"] + [f"{k}r"] * reads) * rounds
+    return ops
+
+
+def wrap_lines():
+    """histories that cross the wrap-arounds of ALL default generators (1000, +-1000, 10000, %255, %500) inside one batch
+    or over many batches, with a restart in the falling half of the triangle wave and in the middle of the periods"""
+    out = []
+    # channels 1, 2, 7, 9 of the default device, 2100 rounds per batch (28 bytes a round): chan1 wraps at 1000 and 2001,
+    # chan2 turns at 1001 and is falling at the restart, chan7 wraps 8 times, chan9 4 times; after the restart all four
+    # begin again; a second batch after the restart crosses the wraps once more
+    ops = ["0a"] + stream_ops(0, en_bulk(11, {1, 2, 7, 9}), rounds=1) + ["0z", "0r", "0a", "0S", "0r", "0S", "0r", "0d"]
+    out.append(("dummy run D,3,16,2100 " + ";".join(ops), "wrap-default"))
+    # chan2 over its whole period (up, down to -1001, up again): 4100 rounds, 10 bytes a round with chan1
+    ops = ["0a"] + stream_ops(0, en_bulk(11, {1, 2}), rounds=1) + ["0z", "0r", "0a", "0S", "0r", "0d"]
+    out.append(("dummy run D,3,0,4100 " + ";".join(ops), "wrap-default"))
+    # chan6 ('hello' once every 10000 calls) alone: 10001 rounds in one batch = two samples; then many small batches
+    ops = ["0a"] + stream_ops(0, en_bulk(11, {6}), rounds=2) + ["0z", "0r", "0a", "0S", "0r", "0d"]
+    out.append(("dummy run D,3,8,10001 " + ";".join(ops), "wrap-default"))
+    # the same wraps crossed by MANY batches of 300 rounds (per-channel order across frames), restart in between
+    ops = ["0a"] + stream_ops(0, en_bulk(11, {1, 2, 5, 7, 8}), rounds=8) + ["0z", "0r", "0a"] + ["0S", "0r"] * 5 + ["0d"]
+    out.append(("dummy run D,3,16,300 " + ";".join(ops), "wrap-default"))
+    # custom: sparse / call-index functions next to the counters, 1500 rounds a batch
+    chans = "7.1.0.11.1.0.69:10.1.0.12.1.0.73:11.1.0.2.1.0.74:5.1.0.1.1.0.75:7.3.1.7.1.0.76"
+    ops = ["0a", f"0w{START.hex()}", "0R", "0r", "0S", "0r", "0S", "0r", "0z", "0r", "0a", "0S", "0r", "0d"]
+    out.append((f"dummy run C,3,0,1500,{chans} " + ";".join(ops), "wrap-custom"))
+    return out
+
+
+def f19_line():
+    """F19: a generator that returns the call index; three samples, restart, three samples: 0 1 2 | 0 1 2"""
+    ops = ["0a", f"0w{START.hex()}", "0R", "0r", "0S", "0r", "0z", "0r", "0a", "0S", "0r", "0S", "0r", "0d"]
+    return "dummy run C,3,0,3,7.1.0.11.1.0.63 " + ";".join(ops)
+
+
+def sparse_lines():
+    """the call counter advances on every call (seeded C14-r3m2): sparse functions next to dense ones, small batches"""
+    out = []
+    for snum, chans in ((1, "10.1.0.12.1.0.73"), (4, "7.1.0.12.1.0.73:7.1.0.11.1.0.69"), (7, "6.1.0.12.1.0.-:18.64.0.6.1.0.68:9.3.0.12.0.0.61")):
+        ops = ["0a", f"0w{START.hex()}", "0R", "0r"] + ["0S", "0r"] * 5 + ["0d", "0z", "0r", "0a"] + ["0S", "0r"] * 4 + ["0d"]
+        out.append((f"dummy run C,3,0,{snum},{chans} " + ";".join(ops), "sparse"))
+    return out
+
+
 def line_of(defs, ops):
     return "dummy run " + "+".join(def_str(d) for d in defs) + " " + ";".join(ops)
 
@@ -533,7 +687,12 @@ def combo_ok(c):
     if t not in sg.STD:
         return False
     code = sg.STD[t][0]
-    kind, dim, rng_, nmeta = GEN_SHAPE[g] if g != 10 else ("int", c["vdim"], (0, 1000), 0)
+    if g == 10:
+        kind, dim, rng_, nmeta = "int", c["vdim"], (0, 1000), 0
+    elif g in IDX_GENS:
+        kind, dim, rng_, nmeta = "int", c["vdim"], (0, IDX_MAX), 0       # call indices: wide types only
+    else:
+        kind, dim, rng_, nmeta = GEN_SHAPE[g]
     if kind == "none":
         ok = code == "" and c["vdim"] == 0
     elif kind == "str":
@@ -555,8 +714,13 @@ def combo_ok(c):
     return ok
 
 
-def det_next(gen, state, vdim=1):
-    """next output of deterministic generator `gen` from `state`: (kind, data, meta) or None (function returned None)"""
+def det_next(gen, state, vdim=1, calls=0):
+    """next output of deterministic generator `gen` from `state`: (kind, data, meta) or None (function returned None);
+    `calls` = how many times the channel was sampled since the last start (what a generator is handed as `cntr`)"""
+    if gen == 11:
+        return ("num", [calls] * vdim, [])
+    if gen == 12:
+        return ("num", [calls] * vdim, []) if calls % 3 == 0 else None
     if gen == 1:
         state["c"] = state.get("c", 0) + 1
         if state["c"] > 1000:
@@ -679,16 +843,17 @@ class Judge:
             return
         snap = dict(en=en, snum=d["snum"])
         exp = self.batch_samples(I, snap)          # generator outputs are taken when the batch is built
-        if exp and self.batch_bytes(I) <= 65529:
+        I["last_bytes"] = self.batch_bytes(I, exp)
+        if exp and I["last_bytes"] <= 65529:
             I["expect"].append(("stream", snap, exp))
 
-    def batch_bytes(self, I):
-        d, rd = I["d"], I["ref"]
+    def batch_bytes(self, I, exp):
+        """payload size of the batch: flags byte + (channel id + data + metadata) of every sample actually produced"""
+        chans = I["d"]["chans"]
         tot = 1
-        for c, rc in zip(d["chans"], rd.chans):
-            if rc["en"] and c["gen"] is not None and combo_ok(c):
-                a, b = sample_size(c)
-                tot += (1 + a + b) * d["snum"]
+        for c, _ in exp:
+            a, b = sample_size(chans[c])
+            tot += 1 + a + b
         return tot
 
     def batch_samples(self, I, snap):
@@ -701,8 +866,10 @@ class Judge:
                 g = chans[c]["gen"]
                 if g is None:
                     continue
+                calls = gst[c].get("n", 0)        # every sampling of the channel counts, whether or not it yields a sample
+                gst[c]["n"] = calls + 1
                 if g in DET_GENS or (g == 9 and ORACLE_MODE[0]):
-                    v = det_next(g, gst[c], chans[c]["vdim"])
+                    v = det_next(g, gst[c], chans[c]["vdim"], calls)
                     if v is not None:
                         exp.append((c, v))
                 else:
@@ -737,10 +904,10 @@ class Judge:
     def died(self, I, tok, where, info, stream):
         if I["tainted"]:
             return None
-        if stream and self.batch_bytes(I) > 65529:
+        if stream and I.get("last_bytes", 0) > 65529:
             return {"key": "batch-too-large", "what": f"a stream batch larger than one frame payload (65 529 bytes) raises in the device's stream "
                     f"thread and ends it ({where}: {tok})", "expected": "the batch split over several frames", "observed": tok,
-                    "batch_bytes": self.batch_bytes(I)}
+                    "batch_bytes": I.get("last_bytes", 0)}
         return {"key": "stream-thread-died" if stream else "recv-thread-died",
                 "what": f"a device thread died on input the property covers ({where}): {tok} {info.get('errors', [])[-1:]}",
                 "expected": "request answered / ignored, stream frame produced", "observed": tok}
@@ -865,42 +1032,54 @@ def f17_line():
 class C14(Prop):
     id = "C14"
     lean_module = "NxsModel.Props.C14"
-    rule = ("random histories (write / receive-thread step / stream-thread step / read / start / stop, 5..45 ops) on the real "
+    rule = ("random histories (write / receive-thread step / stream-thread step / read / start / stop, 5..70 ops) on the real "
             "DummyDev under the virtual-time runtime in pre-emptive mode with an op-directed chooser; device definitions: default "
-            "channel set and custom lists over 40 type/dimension/metadata/generator combinations, flags with and without ACK / "
-            "divider support, rx padding 0..16, batch sizes 1..3 (and 100); requests in single / all / bulk form built by the "
-            "independent encoder, padding-only writes, noise, truncated, start-byte-free and CRC-damaged requests, requests "
-            "outside the protocol (unknown channel, short or mis-flagged set requests, wrong ids); every token of the transcript "
-            "(responses, stream payloads with unmodelled generator values masked, thread deaths, state dumps) is compared with "
-            "the model; distinct = distinct line; non-trivial = history with at least one answered request or stream frame")
+            "channel set and custom lists of 1..255 channels over 50 type/dimension/metadata/generator combinations (dummy.py's ten "
+            "functions, user-defined vector function, user-defined functions of the call index: dense and sparse), flags with and "
+            "without ACK / divider support, rx padding 0..255, batch sizes 1..99 (and 100, 300..10001 in the wrap-around "
+            "histories that cross the periods 1000 / +-1000 / 10000 / 255 / 500 of every default generator); requests in single / "
+            "all / bulk form built by the independent encoder with any channel byte in all / bulk form and any non-zero value "
+            "byte for 'enabled', padding-only writes, noise, truncated, start-byte-free requests, requests with bit flips in the "
+            "checksummed part and in the start / length bytes, requests outside the protocol (unknown channel, short or "
+            "mis-flagged set requests, wrong ids); every token of the transcript (responses, stream payloads with unmodelled "
+            "generator values masked, thread deaths, state dumps with call counters) is compared with the model; distinct = "
+            "distinct line; non-trivial = history with at least one answered request or stream frame")
     assumptions = ["virtual-time runtime (harness/vsim.py) preserves queue / lock / event / thread semantics",
                    "thread iterations are atomic (method granularity): the race between stop() and a batch being built is outside the model",
                    "reference device (harness/refdev.py) is a conforming NxScope device",
-                   "values of the random / sine generators (ChannelFunc0,3,4,9) are compared by structure only",
-                   "stream theorems hold under BatchFits (known finding F17 at the excluded point)"]
+                   "values of the random generators (ChannelFunc0,3,4) are compared by structure only (they draw from the process-global "
+                   "`random`); the sine generator (ChannelFunc9) by value in oracle runs only",
+                   "stream theorems hold under BatchFits (known finding F17 at the excluded point)",
+                   "a CRC-valid frame that is not a request (ACK / STREAM id, common-info request with a payload) ends DummyDev's receive "
+                   "thread (AssertionError): outside the property's quantifier (padding, noise, CRC-damaged requests); modelled, not judged",
+                   "only the first frame of one write() is handled (the nxslib client never batches requests)",
+                   "stop() drops one queued item of each queue; other queued writes / unread frames survive a restart (modelled)"]
 
     def cases(self, rng, tier):
         T = tier == "thorough"
-        n = 0
-        for it in range(3000 if T else 500):
+        for it in range(2000 if T else 440):
             r = it % 10
             if r < 4:
                 d = gen_default(rng)
                 tag = "default"
             elif r < 8:
                 d = gen_custom(rng)
-                tag = "custom"
+                tag = "custom" if len(d["chans"]) <= 12 else "custom-many"
             else:
                 d = gen_custom(rng, odd=True)
                 tag = "custom-odd"
             bad = 0.12 if r in (3, 7, 9) else 0.0
-            ops = gen_history(rng, d, bad=bad, length=rng.randrange(5, 70 if T else 45))
+            many = len(d["chans"]) > 40
+            ops = gen_history(rng, d, bad=bad, length=rng.randrange(5, (30 if many else 70) if T else (20 if many else 45)))
             yield line_of([d], ops), tag + ("-bad" if bad else "")
         # the default device with the default batch size, every channel enabled
         ops = ["0a", "0w" + req(6, [2, 0, 1]).hex(), "0R", "0r", "0w" + req(5, [1]).hex(), "0R", "0r", "0S", "0r", "0S", "0r", "0z", "0a",
                "0S", "0r", "0d"]
         yield "dummy run D,3,16,100 " + ";".join(ops), "default-snum100"
         yield f17_line(), "oversize-batch"
+        yield f19_line(), "call-index"
+        for line, tag in sparse_lines() + wrap_lines():
+            yield line, tag
 
     def impl(self, line):
         return impl_line(line)
@@ -911,8 +1090,11 @@ class C14(Prop):
     def oracle(self, line, impl_out=None):
         return oracle_line(line)
 
+    def targeted(self):
+        return [(f19_line(), "call-index")] + sparse_lines() + wrap_lines()
+
     def search_cases(self, rng):
-        out = []
+        out = list(self.targeted())
         for it in range(120):
             d = gen_default(rng) if it % 2 else gen_custom(rng)
             out.append((line_of([d], gen_history(rng, d, junk=0.3, length=rng.randrange(8, 40))), "search"))
@@ -925,9 +1107,16 @@ class C14(Prop):
         if v:
             v["case"] = f17_line()
             viol.append(v)
-        # the property oracle on a sample of the generated histories (independent of the model)
+        # the property oracle on the targeted histories (call index, sparse functions, wrap-arounds + restart) ...
         n = 0
-        for it in range(600 if tier == "thorough" else 120):
+        for line, _ in self.targeted():
+            v = oracle_line(line)
+            n += 1
+            if v and len(viol) < 4:
+                v["case"] = line
+                viol.append(v)
+        # ... and on a sample of the generated histories (independent of the model)
+        for it in range(150 if tier == "thorough" else 100):
             d = gen_default(rng) if it % 2 else gen_custom(rng)
             line = line_of([d], gen_history(rng, d, junk=0.35, length=rng.randrange(8, 40)))
             v = oracle_line(line)
